@@ -41,6 +41,7 @@ type hcLevel struct {
 	name  string
 	op    int
 	cfg   int      // 0 absent, 1 true, 2 false
+	onChoice bool  // choice operators only: the config statement is written on the choice, not on the container
 	ns    string   // module whose text placed the node in the tree: "m" or "a"
 	steps []string // names from the tree root down to this node
 	nsOf  []string // namespace module of every step
@@ -109,7 +110,15 @@ func (sc *hcSchema) gen(i int, inG2 bool) string {
 		case 2:
 			extra = "list l" + idx + " {" + hcCfgText(lv.extraCfg) + " key k; leaf k { type string; } } "
 		}
-		return "container " + lv.name + " {" + hcCfgText(lv.cfg) + " " + extra + sc.gen(i+1, childInG2) + "}"
+		own := hcCfgText(lv.cfg)
+		if lv.onChoice {
+			own = ""
+		}
+		return "container " + lv.name + " {" + own + " " + extra + sc.gen(i+1, childInG2) + "}"
+	}
+	chCfg := ""
+	if lv.onChoice {
+		chCfg = hcCfgText(lv.cfg) + " "
 	}
 	usesText := func(g string) string {
 		if inG2 {
@@ -121,9 +130,9 @@ func (sc *hcSchema) gen(i int, inG2 bool) string {
 	case opDirect:
 		return inner(inG2) + " "
 	case opChoiceCase:
-		return "choice ch" + idx + " { case cs" + idx + " { " + inner(inG2) + " } } "
+		return "choice ch" + idx + " { " + chCfg + "case cs" + idx + " { " + inner(inG2) + " } } "
 	case opChoiceShort:
-		return "choice ch" + idx + " { " + inner(inG2) + " } "
+		return "choice ch" + idx + " { " + chCfg + inner(inG2) + " } "
 	case opUses:
 		g := "g" + idx
 		sc.gBody += "grouping " + g + " { " + inner(true) + " } "
@@ -202,6 +211,9 @@ func hcGenerate(n int) *hcSchema {
 		}
 		if dataTop {
 			lv.cfg = symChoice(3)
+			if (lv.op == opChoiceCase || lv.op == opChoiceShort) && lv.cfg != 0 {
+				lv.onChoice = symBool()
+			}
 		}
 		if i == n-1 && !hcSlim {
 			lv.extraKind = symChoice(3)
